@@ -1,4 +1,7 @@
 pub mod c08;
 pub mod c09;
+pub mod c11;
+pub mod c14;
 pub mod c16;
 pub mod c17;
+pub mod c19;
